@@ -16,7 +16,15 @@ sets as in C08), per-CPU `read()` with n_possible in {1, 2, ncpu, ncpu+3}
 __getitem__ pop __delitem__ __iter__ values() items() popitem() clear()
 get() setdefault() `in`, and the collect-then-use iterations of C09;
 breadth-first over sequences up to length 3, all reachable map contents) on
-the Dict declarations of C09.
+the Dict declarations of C09 - including those whose Key / Value Structure
+classes derive from other Structure classes and add members (base class,
+subclass, sub-subclass; alone, or next to a second Dict declared with the
+base classes before / after; base class instances made in Python before the
+first derived instance exists or after load()), with keys and values of
+which only the inherited members were assigned, and the operations on the
+second Dict (c09.dict_inherit_configs; setting such a case up - the second
+Dict's entry goes in through Python - is monitored as an operation of its
+own).
 
 Histories of two programs in one process (see VARIANTS): a second program of
 any kind, or a second instance of the first one's class, is created while the
@@ -45,7 +53,11 @@ RULE = ("cases = (declaration, operation sequence): hash-map variables of "
         "300, 513) variables (get / set of the first, 255th, 256th, 257th, "
         "last; single operations and all set-then-get pairs), array and per-CPU declaration sets of <= 2 variables "
         "from C08's alphabet (per-CPU x 4 possible/online CPU settings), "
-        "Dict declarations of C09 with all Python operation sequences of "
+        "Dict declarations of C09 (flat Key / Value classes, and classes "
+        "at the end of an inheritance chain of Structure classes x {no / "
+        "earlier / later second Dict with the base classes} x {no / earlier "
+        "/ later base class instances made in Python}, partly assigned keys "
+        "and values) with all Python operation sequences of "
         "length <= 3 explored breadth-first over map contents; histories "
         "(first program, second program or further instances of the first's "
         "class, one of six orders of load / use / close() / create / "
@@ -699,7 +711,7 @@ def run(ctx):
     for k in range(1, kmax + 1):
         for p in c08.prefixes(k):
             items.append(("arr", (k, p, ctx.seed, pcs)))
-    for cfg in c09.dict_configs(ctx):
+    for cfg in c09.dict_configs(ctx) + c09.dict_inherit_configs(ctx):
         items.append(("dict", cfg))
     for n in (255, 256, 257) if ctx.quick else (254, 255, 256, 257, 300, 513):
         for fmt in ("Q",) if ctx.quick else ("Q", "b"):
@@ -725,6 +737,13 @@ def run(ctx):
         "'more possible than online CPUs' is simulated by a map with "
         "n_possible CPUs while os.cpu_count() as seen by ebpfcat.arraymap "
         "returns the online number",
+        "Dict keys / values whose Structure class derives from another "
+        "Structure class: the map is created with the derived class's size "
+        "(Dict.init), so that is what every buffer of an operation on it "
+        "must cover, whichever class of the chain was instantiated first "
+        "in the process and however few members of the instance were "
+        "assigned; an operation the library refuses with an exception "
+        "before any system call is no overrun",
         "array-map variables are accessed through the mapped memory only; "
         "the check confirms that no map system call is issued for them",
         "reading and writing a program's maps from Python stays legal after "
@@ -766,9 +785,7 @@ def replay(ctx, rep):
                    v["case"].get("phase")) ==
                (c.get("opkind"), c.get("who"), c.get("phase"))]
     else:
-        cfg = dict(key=tuple(c["key"]), value=tuple(c["value"]),
-                   size=c["size"], lru=c["lru"])
-        run_dict(cfg, res)
+        run_dict(c09.dict_cfg_of(c), res)
         out = [v for v in res.violations
                if v["case"].get("op") == c.get("op")]
     for v in out[:5]:
